@@ -320,9 +320,7 @@ def dense_M(mjm, Mvals):
 
 
 def mj_dense_M(mjm, mjd):
-  M = np.zeros((mjm.nv, mjm.nv))
-  mujoco.mj_fullM(mjm, M, mjd.qM)
-  return M
+  return dense_M(mjm, np.asarray(mjd.M))
 
 
 def overflow(d):
